@@ -89,7 +89,11 @@ def gen_cases(tier):
 
 def feats(s):
     f = []
-    if "(" in s or re.search(r"[,)](?!\w)", s):
+    # the pre-processor leaves a ',' or ')' alone only when everything between it and the closing quote is \w*[\\']*\w* (its look-ahead
+    # for "inside a literal"); '(' is always spaced. For literals of <= 2 atoms this is "a comma/paren not followed by a word character".
+    # (evaluated on the unicode_escape form of the literal, which is the text the pre-processor works on)
+    e = s.encode("unicode_escape").decode("ascii")
+    if "(" in s or any(ch in ",)" and not re.fullmatch(r"\w*[\\']*\w*", e[i + 1:]) for i, ch in enumerate(e)):
         f.append("lit:paren-or-unflanked-comma")
     if re.search(r"\b=", s):
         f.append("lit:eq-after-word")
